@@ -64,15 +64,15 @@ prop('C16', units=['bk', 'ord', 'drv'], level='proof',
      not_covered=['parse_initial_status string splitting / rejection before processing (cmd.rs)', 'call site in the async I/O driver (witness D11)'],
      witnesses=['D11'])
 
-prop('C17', units=['costs'], level='proof',
+prop('C17', units=['costs', 'rnd'], level='proof',
      technique='Verus contracts on costs.rs: MaxSingleDayCosts sum invariant; calc_max_day_cost_per_sec row k = day maximum or carried closing value for every security; calc_yearly_max_cost_day = best row of the year (earliest on ties)',
      level_text='Deductive proof (Verus) for all delta lists satisfying deltas_ok (per security in settlement order): every dated row, the carry-forward, the row total and the yearly best day are those of the statement, for any hash iteration order.',
-     level_note=BK_NOTE + ' deltas_ok at the call site in run_acb_app_to_render_model is assumed (concatenation of per-security ledgers). hole_date_keys (keys().map().collect()) is an assumed std paraphrase with arbitrary order.',
+     level_note=BK_NOTE + ' the call site in run_acb_app_to_render_model is verified up to one named assumption (axiom_concat_ledgers_deltas_ok: the concatenation of per-security ledgers, securities in sorted order, satisfies deltas_ok). hole_date_keys (keys().map().collect()) is an assumed std paraphrase with arbitrary order.',
      not_covered=['render_total_costs string assembly', 'Costs::sorted_years (rendering helper)', 'listing of ignored transactions as notes (strings)'],
      witnesses=['D1', 'D2b'])
 
 
-ALL_UNITS = ['bk', 'agg', 'ord', 'costs', 'summary', 'fx', 'conv', 'pdf', 'drv']
+ALL_UNITS = ['bk', 'agg', 'ord', 'costs', 'summary', 'fx', 'conv', 'pdf', 'drv', 'rnd']
 
 prop('C05', units=ALL_UNITS, level='proof',
      technique='Verus: every unwrap/expect/assert!/panic!/index/slice/division and every loop (decreases) inside the extracted functions is a discharged obligation (run-time assertions are shadowed by rt_assert(requires cond))',
@@ -103,7 +103,7 @@ prop('C08', units=['drv', 'ord', 'agg', 'bk'], level='proof',
      not_covered=['run_acb_app_to_delta_models driver loop (by-value HashMap loop inside async I/O code)'],
      witnesses=['D15'])
 
-prop('C09', units=['ord', 'costs', 'agg', 'bk'], level='proof',
+prop('C09', units=['ord', 'costs', 'agg', 'bk', 'rnd'], level='proof',
      technique='Verus with hash iteration modelled as an arbitrary permutation: expand(global splits) is a function of the input (unique id-sorted enumeration), yearly max day = earliest best day, aggregate sums order-independent, sorted key lists',
      level_text='Deductive proof (Verus): each function that turns a hash container into ordered output satisfies a seed-free postcondition, so no result depends on iteration order. Byte-level output of tabled/csv and the render loop order are watched by witnesses only.',
      level_note=BK_NOTE + ' iteration order of std hash containers is unspecified in every assumed iterator contract.',
